@@ -558,7 +558,7 @@ def elem_spec(types=ELEMENT_TYPES):
 def element_strategy(tier):
     big = tier == "thorough"
     wl = netlab.workload([0, 1, 2, 3], n_max=60 if big else 30, exact=True, min_size=3,
-                         sizes=st.sampled_from([64, 128, 512, 1024, 1500, 3000]))
+                         sizes=st.sampled_from([64, 128, 512, 1024, 1500, 3000, 0, 64, 0]))      # zero-length packets are legal
     return st.fixed_dictionaries({"elem": elem_spec(), "wl": wl, "seed": st.integers(0, 10 ** 6),
                                   "wl2": kgen.weighted([(st.none(), 2), (wl, 1)])})
 
